@@ -91,6 +91,9 @@ func (a *XORMappedAddress) GetFromAs(msg *Message, attr AttrType) error {
 	if err != nil {
 		return err
 	}
+	if len(value) <= 4 {
+		return io.ErrUnexpectedEOF
+	}
 	family := bin.Uint16(value[0:2])
 	if family != familyIPv6 && family != familyIPv4 {
 		return newDecodeErr("xor-mapped address", "family",
@@ -111,9 +114,6 @@ func (a *XORMappedAddress) GetFromAs(msg *Message, attr AttrType) error {
 	a.IP = a.IP[:ipLen]
 	for i := range a.IP {
 		a.IP[i] = 0
-	}
-	if len(value) <= 4 {
-		return io.ErrUnexpectedEOF
 	}
 	if err := CheckOverflow(attr, len(value[4:]), len(a.IP)); err != nil {
 		return err
